@@ -1357,7 +1357,7 @@ class Exec:
             func, subst = rs
             if any(re.search(p, callee) for p in self.no_inline):
                 raise NotEncoded(f'call to {callee} must be stubbed')
-            if sum(1 for fr in st.stack if fr.func is func) >= 3:
+            if sum(1 for fr in st.stack if fr.func is func) >= getattr(self, 'max_recursion', 3):
                 raise NotEncoded(f'recursion into {func.name}')
             return Enter(func, args, None, subst)
         if self.havoc_unknown:
